@@ -37,6 +37,8 @@ def mk(spec):
         return np.frombuffer(random.Random(int(spec[2])).randbytes(int(spec[1])), dtype=np.uint8)
     if k == "e":
         return h5py.Empty("f")
+    if k == "O":
+        return np.array([base64.b64decode(x) for x in spec[1]], dtype=object)
     if k == "o":
         return object()  # not storable: the assignment must fail without any effect
     raise ValueError(f"bad value spec {spec!r}")
